@@ -4,7 +4,8 @@
    rules.  combine_latest / with_latest_from: closed forms over EVERY sequence
    of deliveries (the emitted tuples are exactly the snapshots of the latest
    elements, from the first moment every source has one), plus their step
-   rules; fork_join: emission and completion rule as a step lemma. *)
+   rules; fork_join: closed form over every sequence of deliveries and completions,
+   plus its step rule. *)
 From RxVerif Require Import Base.Prelude Ops.Machine Ops.Multi Ops.MultiFacts Ops.RunLemmas
   Ops.Combinators Ops.MergeFacts Ops.CombineFacts Ops.LatestFacts.
 
@@ -103,6 +104,24 @@ Theorem C13_with_latest_from_closed_form : forall A n (ins : list (nat * A)),
   snd (wlf_feed n (repeat None n) ins []) = wlf_spec n [] ins.
 Proof. exact @with_latest_from_closed_form. Qed.
 Print Assumptions C13_with_latest_from_closed_form.
+
+(* fork_join over n sources, ANY sequence of deliveries (source, Some x) and completions
+   (source, None): nothing until every source has completed, then ONE tuple of the last elements;
+   a source completing empty completes the output at once, without a tuple *)
+Theorem C13_fork_join_closed_form : forall A n (ins : list (nat * option A)),
+  Forall (fun p => (fst p < n)%nat) ins ->
+  fj_feed n (repeat None n, repeat false n) ins [] = fj_spec n [] (repeat false n) ins.
+Proof. exact @fork_join_closed_form. Qed.
+Print Assumptions C13_fork_join_closed_form.
+Theorem C13_fork_join_at_most_one_tuple : forall A n (ins : list (nat * option A)) seen done,
+  (length (fst (fj_spec n seen done ins)) <= 1)%nat.
+Proof. exact @fj_spec_at_most_one. Qed.
+Print Assumptions C13_fork_join_at_most_one_tuple.
+
+Example C13_witness_fork_join :
+  fj_feed 2 (repeat None 2, repeat false 2) [(0%nat, Some 1); (1%nat, Some 10); (0%nat, Some 2); (0%nat, None); (1%nat, Some 20); (1%nat, None)] []
+  = ([[2; 20]], true).
+Proof. vm_compute. reflexivity. Qed.
 
 Example C13_witness_combine_latest :
   snd (cl_feed 2 (repeat None 2, false, repeat false 2) [(0%nat, 1); (0%nat, 2); (1%nat, 10); (0%nat, 3); (1%nat, 20)] [])
